@@ -232,9 +232,7 @@ fn e1_plan(prop: P, tier: &Tier) -> Vec<PlanItem> {
             ];
             if prop == P::C04 {
                 v.push(item(
-                    Box::new(Decorated::new("F5 soft skeletons", soft_skeletons(), if q { 1 } else { 2 }, false, &|d| {
-                        matches!(d, Deco::Soft(_) | Deco::Exclude(..) | Deco::Lock(_) | Deco::Unknown(_) | Deco::Hint(..))
-                    })),
+                    Box::new(Decorated::new_with("F5 soft skeletons", soft_skeletons(), f5k(q), false, &f5_filter)),
                     named(vec![("sync", sync_cfg()), ("async-fifo", async_cfg(K_CANDS | K_DEPS, false))]),
                     1,
                 ));
@@ -293,9 +291,7 @@ fn e1_plan(prop: P, tier: &Tier) -> Vec<PlanItem> {
         ],
         P::C14 => vec![
             item(
-                Box::new(Decorated::new("F5 soft skeletons", soft_skeletons(), if q { 2 } else { 3 }, false, &|d| {
-                    matches!(d, Deco::Soft(_) | Deco::Exclude(..) | Deco::Lock(_) | Deco::Unknown(_))
-                })),
+                Box::new(Decorated::new_with("F5 soft skeletons", soft_skeletons(), f5k(q), false, &f5_filter)),
                 two_axes(),
                 1,
             ),
@@ -476,6 +472,11 @@ pub fn run_property(ctx: &Ctx) -> i32 {
     }
     match ctx.property.as_str() {
         "C10" | "C11" | "C12" | "C13" => return run_e2(ctx),
+        "C15" => return crate::e15::run(ctx),
+        "C16" => return crate::e16::run(ctx),
+        "C18" => return crate::e4::run_c18(ctx),
+        "C19" => return crate::e4::run_c19(ctx),
+        "C20" => return crate::e4::run_c20(ctx),
         _ => {}
     }
     eprintln!("unknown property {}", ctx.property);
@@ -514,6 +515,29 @@ pub fn replay(path: &str) -> i32 {
                 0
             } else {
                 println!("replay: still fails: {:?}", outs[0]);
+                println!("VIOLATION property={prop} replay={path}");
+                1
+            }
+        }
+        Some(k @ ("c15" | "c16" | "c18" | "c19" | "c20" | "c20-solve")) => {
+            let f = |r: &Value| match k {
+                "c15" => crate::e15::replay(r),
+                "c16" => crate::e16::replay(r),
+                "c18" => crate::e4::replay_c18(r),
+                "c19" => crate::e4::replay_c19(r),
+                _ => crate::e4::replay_c20(r),
+            };
+            let a = f(r);
+            let b = f(r);
+            if a != b {
+                eprintln!("MACHINERY ERROR: replay is not deterministic");
+                return 2;
+            }
+            if a.is_empty() {
+                println!("replay: no violation");
+                0
+            } else {
+                println!("replay: still fails: {a:?}");
                 println!("VIOLATION property={prop} replay={path}");
                 1
             }
@@ -690,4 +714,8 @@ pub fn run_e2(ctx: &Ctx) -> i32 {
         }
     }
     rep.finish(ctx)
+}
+
+fn f5k(q: bool) -> usize {
+    std::env::var("VERIF_F5K").ok().and_then(|s| s.parse().ok()).unwrap_or(if q { 2 } else { 3 })
 }
